@@ -1322,11 +1322,12 @@ class DesignSpace:
 
         if minus_lb:
             out[..., norm_inds] += lower_bounds[norm_inds]
-
-        if not self.__no_integer:
-            self.round_vect(out, copy=False)
-            if recast_to_int:
-                out = out.astype(self.__INT_DTYPE)
+            # Only a point of the design space has integer components;
+            # a vector that is not shifted by the lower bounds (e.g. a gradient) has not.
+            if not self.__no_integer:
+                self.round_vect(out, copy=False)
+                if recast_to_int:
+                    out = out.astype(self.__INT_DTYPE)
 
         return out
 
